@@ -1,14 +1,80 @@
+import Sucds.Proofs.EliasFanoHigh
 import Sucds.Proofs.EliasFanoHistory
-import Sucds.Proofs.UnaryCode
-/-! # C04 — EliasFano behaves as the sorted multiset it was built from (partial)
+/-! # C04 — EliasFano behaves as the sorted multiset it was built from
 
-Proved: the builder invariant for every history and `select k = x_k` for every `k` given the `select1`
-answers of the high-bit index (`select_via_high_bits`); the counting lemmas of the unary code of the high
-parts (`kth_one`, `cnt_eq_below`). Missing: `delta`, `rank`, `predecessor`, `successor`, `binsearch*`,
-the iterator, and discharging the `select1` hypothesis by the DArray theorem (C02). -/
+For every universe `u < 2^64`, capacity `m ≥ 1`, **every** push history `hist` and every build configuration:
+the builder never panics and keeps exactly the greedy filter `xs = accepted u m [] hist` of the history (for a
+non-decreasing `hist` below `u` of length `≤ m` that is `hist` itself — `accepted_of_valid`); the sequence
+built from it (`build()` then `enable_rank()`: `DArray` over the high bits with its zero index) satisfies, for
+**every** argument: `select(k) = x_k`, `delta(k) = x_k − x_{k−1}` (`x_{−1} = 0`), `rank(p) = #{x < p}` for
+`p ≤ u`, `predecessor(p) = max{x ≤ p}` and `successor(p) = min{x ≥ p}` for `p < u`, `iter(k)` yields
+`x_k … x_{n−1}` and then `None` forever, `binsearch_range(lo..hi, v)` returns an index in the range holding
+`v` iff one exists (`None` for an empty range or one ending beyond `n`), `binsearch(v)` likewise over the
+whole sequence; each `None` exactly outside those domains; `len = n`, `universe = u`. No `unwrap`, overflow
+check or debug assertion can fire. -/
 namespace Sucds.C04
-open Sucds Sucds.Spec Sucds.EFB
-theorem select_via_high_bits (b : EFB) (xs : List Nat) (h : Holds b xs) (k : Nat) :
-    b.selectWith (sel b.high.bitAt b.high.len k) k = .ok xs[k]? := select_ok b xs h k
-theorem builder_invariant : type_of% (@EFB.run_spec) := @EFB.run_spec
+open Sucds Sucds.Spec Sucds.EFB Sucds.EFQ
+
+/-- what the built sequence `e` must answer for the stored list `xs` and universe `u` -/
+structure Answers (c : Cfg) (e : EF) (u : Nat) (xs : List Nat) : Prop where
+  len      : e.len = xs.length
+  univ     : e.univ = u
+  select   : ∀ k, e.select c k = .ok xs[k]?
+  delta    : ∀ k, e.delta c k = .ok (if k < xs.length then some (X xs k - (if k = 0 then 0 else X xs (k - 1))) else none)
+  rank     : ∀ p, e.rank c p = .ok (if p ≤ u then some (rk xs p) else none)
+  pred     : ∀ p, e.predecessor c p = .ok (if p < u then predV xs p else none)
+  succ     : ∀ p, e.successor c p = .ok (if p < u then succV xs p else none)
+  iter     : ∀ k, ∃ it0, e.iter c k = .ok it0 ∧
+               ∀ t, ∃ it', itRun c e (xs.length - k + t) it0 = .ok (it', (xs.drop k).map some ++ List.replicate t none)
+  bs_none  : ∀ lo hi v, (hi ≤ lo ∨ xs.length < hi) → e.binsearchRange c lo hi v = .ok none
+  bs_some  : ∀ lo hi v, lo < hi → hi ≤ xs.length → ∃ r, e.binsearchRange c lo hi v = .ok r ∧
+               match r with
+               | some i => lo ≤ i ∧ i < hi ∧ xs[i]? = some v
+               | none => ∀ i, lo ≤ i → i < hi → xs[i]? ≠ some v
+  bs_all   : ∀ v, e.binsearch c v = e.binsearchRange c 0 xs.length v
+
+def Statement : Prop :=
+  ∀ (c : Cfg) (u m : Nat) (hist : List Nat), m ≠ 0 → u < 2^64 →
+    ∃ b0 b', EFB.new u m = some b0 ∧ EFB.run b0 hist = .ok (b', verdicts u m [] hist) ∧
+      Answers c ((EF.ofBuilder c b').enableRank c) u (accepted u m [] hist)
+
+theorem holds : Statement := by
+  intro c u m hist hm hu
+  obtain ⟨b0, hn, hh, hu0, hm0⟩ := new_holds u m hm hu
+  obtain ⟨b', hr, hh', hub, _⟩ := run_spec hist b0 [] hh
+  rw [hu0, hm0] at hr hh'
+  rw [hu0] at hub
+  refine ⟨b0, b', hn, hr, ?_⟩
+  have hu' : b'.univ < 2^64 := by rw [hub]; exact hu
+  obtain ⟨a1, a2, a3, a4, a5, a6, a7, a8, a9, a10⟩ :=
+    ranked_queries c b' _ hh' hu' (high_enableRank c b' _ hh')
+  rw [hub] at a4 a5 a6
+  exact ⟨a1, hub, a2, a3, a4, a5, a6, a7, a8, a9, a10⟩
+
+/-- a valid input (non-decreasing, below `u`, at most `m` values) is accepted entirely -/
+theorem accepted_of_valid (u m : Nat) : ∀ (hist acc : List Nat),
+    (acc ++ hist).Pairwise (· ≤ ·) → (∀ x ∈ hist, x < u) → acc.length + hist.length ≤ m →
+    accepted u m acc hist = acc ++ hist := by
+  intro hist
+  induction hist with
+  | nil => intro acc _ _ _; simp [accepted]
+  | cons v vs ih =>
+    intro acc hs hb hl
+    have h1 : acc.getLast?.getD 0 ≤ v := by
+      cases hlast : acc.getLast? with
+      | none => simp
+      | some l =>
+        have hmem : l ∈ acc := List.mem_of_getLast? hlast
+        have := List.pairwise_append.mp hs
+        simpa using this.2.2 l hmem v (by simp)
+    have h2 : v < u := hb v (by simp)
+    have h3 : acc.length < m := by simp at hl; omega
+    simp only [accepted, h1, h2, h3, and_self, if_true]
+    rw [ih (acc ++ [v]) (by simpa using hs) (fun x hx => hb x (by simp [hx])) (by simp at hl ⊢; omega)]
+    simp
+
+/-- the spec functions mean what the property says (for the sorted list the builder holds) -/
+theorem rank_meaning (xs : List Nat) (p : Nat) : rk xs p = xs.countP (· < p) := rfl
+theorem pred_meaning : type_of% (@predV_some_iff) := @predV_some_iff
+theorem succ_meaning : type_of% (@succV_some_iff) := @succV_some_iff
 end Sucds.C04
